@@ -47,6 +47,12 @@ def make_square(rng, n, kind):
         A = A * d[None, :]
     elif kind == 'int':
         A = np.array([[complex(rng.randint(-5, 5), rng.randint(-5, 5)) for _ in range(n)] for _ in range(n)], complex).reshape(n, n)
+    elif kind == 'lossless':
+        # a lossless reciprocal network: zero self terms, purely imaginary (or purely real) transfer terms - every pivot column has
+        # an exact zero on the diagonal and entries with a zero real (imaginary) part below it
+        u = 1j if rng.random() < 0.7 else 1.0
+        A = np.array([[0 if i == j else u * rng.choice([-1, 1]) * rng.uniform(0.2, 3.0) for j in range(n)] for i in range(n)], complex).reshape(n, n)
+        A = (A + A.T) / 2 if n > 1 else np.array([[u * 1.5]], complex)
     elif kind == 'leadblock' and n >= 3:
         # a leading k x k block that is singular or nearly so while the whole matrix is well conditioned:
         # elimination without a row exchange at step k-1 meets a zero / tiny pivot
@@ -73,6 +79,8 @@ def make_singular(rng, n):
 
 
 def rowwise_residual(A, X, B):
+    if not (np.all(np.isfinite(X.real)) and np.all(np.isfinite(X.imag))):
+        return float('inf')            # (a comparison with NaN is false: a non-finite solution must not pass as residual 0)
     A, X, B = A.astype(LD), X.astype(LD), B.astype(LD)
     R = np.abs(A @ X - B)
     S = np.abs(A) @ np.abs(X) + np.abs(B)
@@ -103,7 +111,7 @@ def run(chk):
     TOL = 1e-10
     lines, cases = [], []
     for _ in range(N):
-        for kind in ('random', 'rowscaled', 'graded', 'colscaled', 'int', 'permuted', 'leadblock'):
+        for kind in ('random', 'rowscaled', 'graded', 'colscaled', 'int', 'permuted', 'leadblock', 'lossless'):
             n = rng.randint(1, nmax)
             k = rng.randint(1, 3)
             A = make_square(rng, n, 'random' if kind == 'permuted' else kind)
@@ -281,6 +289,8 @@ def run(chk):
         singular_calibrations(chk, exe, rng)
     if not chk.violations:
         missing_column_calibrations(chk, exe, rng)
+    if not chk.violations:
+        scaled_calibrations(chk, exe, rng, 1 if quick else 10)
     if broken and not chk.violations:
         chk.violation('obligation', 'proof/correspondence obligations that no longer check:\n' + '\n'.join(broken[:30]), nofail=True)
 
@@ -337,6 +347,44 @@ def singular_calibrations(chk, exe, rng):
             if out[-1] != 'ok live=0':
                 chk.violation('singular-cal-leak', '%s: allocations remain: %s' % (tag, out[-1]), sc.lines)
                 return
+
+
+def scaled_calibrations(chk, exe, rng, reps):
+    """calibrate and apply with receivers of very different and very small (or large) gain: every row of the measurement matrices is
+    scaled by its own factor 1e-8 .. 1e-4 (or 1e4 .. 1e8).  The systems vnacal_apply solves are regular, merely row-scaled: the device
+    comes back as with unit gains, and nothing is reported singular"""
+    from props import calsim
+    for _ in range(reps):
+        for typ in calsim.TYPES:
+            n = 2 if typ in ('T16', 'U16') else 3
+            box = calsim.ErrorBox(rng, typ, n, n, 1)
+            small = rng.random() < 0.7
+            # one receiver of unit gain (whichever term the library normalises by, the others are far away from it), the others tiny / huge
+            d = [1.0] + [10.0 ** (rng.uniform(-9, -7) if small else rng.uniform(7, 9)) for _ in range(n - 1)]
+            rng.shuffle(d)
+            d = np.array(d)
+            box.boxes = [[(np.diag(d) @ El, np.diag(d) @ Er, Et, Em) for (El, Er, Et, Em) in sysl] for sysl in box.boxes]
+            sc = calsim.Scenario(rng, typ, n, n, 1, form='m', box=box).begin()
+            sc.solt().solve().add_calibration(b'c')
+            dut = sc.random_dut()
+            sc.lines += [sc.apply_line(0, dut), 'cal free 0', 'cal live']
+            out, rc, err = vlib.run_lines(exe, sc.lines, timeout=300)
+            chk.evaluations += 1
+            tag = '%s %dx%d, receiver rows scaled by %s' % (typ, n, n, ', '.join('%.0e' % x for x in d))
+            if rc != 0 or len(out) != len(sc.lines):
+                chk.violation('sanitizer-scaled-cal', '%s: crashed / sanitizer report:\n%s' % (tag, err[-1000:]), sc.lines[:len(out) + 1])
+                return
+            bad = [(l, o) for l, o in zip(sc.lines, out) if not o.startswith('ok')]
+            if bad:
+                chk.violation('scaled-cal-refused', '%s: `%s` -> %s (a regular, merely row-scaled system)' % (tag, bad[0][0][:60], bad[0][1][:60]), sc.lines[:sc.lines.index(bad[0][0]) + 1])
+                return
+            ok, S = calsim.parse_apply(out[-3], n)
+            e = float(np.abs(S[0] - dut[0]).max())
+            if not e <= 1e-7:
+                chk.violation('scaled-cal-wrong', '%s: the device is recovered with error %.3e' % (tag, e), sc.lines[:-2])
+                return
+            chk.count('scaled_calibration_ok')
+            chk.distinct.add(('scaledcal', typ, n, small))
 
 
 def missing_column_calibrations(chk, exe, rng):
